@@ -367,11 +367,12 @@ def type_specs(tier):
     cont1 = []
     for e in r1:
         cont1 += [["array", 1, e], ["list", e]]
-    l2 = composites([BOOL, QB, *r1[:6]], 2 if tier == "thorough" else 1, 2)
+    big = tier in ("thorough", "deep")
+    l2 = composites([BOOL, QB, *r1[: 6 if tier != "deep" else 9]], 2 if big else 1, 2)
     out = leaves + l1 + cont1 + l2
-    if tier == "thorough":
+    if big:
         r2 = reps_level(l2)
-        l3 = composites([QB, *r2[:5]], 1, 2)
+        l3 = composites([QB, *r2[: 5 if tier != "deep" else 9]], 1 if tier != "deep" else 2, 2)
         l1b = [["Sum", [list(a), list(b), list(c)]] for a, b, c in itertools.product(rows_over([BOOL, QB], 1), repeat=3)]
         out += l3 + l1b
         for e in r2[:8]:
